@@ -50,7 +50,7 @@ Proof.
   match goal with |- context [cm_repeat_for ?c] => set (cm := c) end.
   destruct (cm_repeat_for cm).
   - destruct (from_disjunction_struct e a0).
-    + intros H. inversion H. right. eexists. split; reflexivity.
+    + intros H. inversion H. left. reflexivity.
     + destruct (mapping_for_option e b gp cm o) as [[om|] g] eqn:E; intros H; inversion H; subst.
       * right. exists om. split; auto. eapply mapping_for_option_option; eauto.
       * left. reflexivity.
@@ -73,12 +73,13 @@ Proof.
 Qed.
 
 Lemma from_builder_mappings e b :
-  exists ms, Forall2 mapping_of (b_options b) ms /\
-             cv_mappings (from_builder e b) = filter (fun m => negb (match cm_options m with [] => true | _ => false end)) ms.
+  exists ms lms, Forall2 mapping_of (b_options b) ms /\
+             cv_mappings (from_builder e b) =
+             filter (fun m => negb (match cm_options m with [] => true | _ => false end)) (ms ++ lms).
 Proof.
   unfold from_builder.
   destruct (fold_left _ (b_options b) ([], [])) as [ms gp] eqn:E.
-  destruct (from_builder_fold e b _ _ _ _ _ E) as [ms' [-> F]]. exists ms'. split; auto.
+  destruct (from_builder_fold e b _ _ _ _ _ E) as [ms' [-> F]]. eexists ms', _. split; [exact F|reflexivity].
 Qed.
 
 (* ---------- the calls a mapping without repetition emits ---------- *)
@@ -131,22 +132,23 @@ Qed.
 Definition direct_option (o : boption) : Prop := forall a, In a (op_assignments o) -> as_method a = "direct".
 
 Lemma convert_option_norepeat e b gp o m gp' :
-  direct_option o -> convert_option e b gp o = (m, gp') -> cm_repeat_for m = None.
+  direct_option o -> convert_option e b gp o = (m, gp') -> cm_repeat_for m = None /\ cm_repeat_as m = "".
 Proof.
   unfold convert_option. intros D.
   destruct (filter (fun a : assignment => negb (generated gp a)) (op_assignments o)) as [|a0 rest] eqn:EF;
-    [intros H; inversion H; reflexivity|].
+    [intros H; inversion H; split; reflexivity|].
   assert (I0 : In a0 (op_assignments o)).
   { assert (X : In a0 (a0 :: rest)) by (left; reflexivity). rewrite <- EF in X. apply filter_In in X. tauto. }
   assert (M := D a0 I0). unfold is_append, is_index. rewrite M. simpl. rewrite !andb_false_r. simpl.
-  destruct (mapping_for_option e b gp _ o) as [[om|] g]; intros H; inversion H; reflexivity.
+  destruct (mapping_for_option e b gp _ o) as [[om|] g]; intros H; inversion H; split; reflexivity.
 Qed.
 
 Lemma from_builder_fold_norepeat e b : forall opts ms0 gp0 ms gp,
   (forall o, In o opts -> direct_option o) ->
   fold_left (fun acc o => let '(ms, gp) := acc in let '(m, gp') := convert_option e b gp o in (ms ++ [m], gp'))
             opts (ms0, gp0) = (ms, gp) ->
-  (forall m, In m ms0 -> cm_repeat_for m = None) -> forall m, In m ms -> cm_repeat_for m = None.
+  (forall m, In m ms0 -> cm_repeat_for m = None /\ cm_repeat_as m = "") ->
+  forall m, In m ms -> cm_repeat_for m = None /\ cm_repeat_as m = "".
 Proof.
   induction opts as [|o r IH]; simpl; intros ms0 gp0 ms gp D H R m I.
   - inversion H; subst. auto.
@@ -154,6 +156,24 @@ Proof.
     eapply (IH _ _ _ _ (fun o' Io => D o' (or_intror Io)) H); eauto.
     intros m' I'. apply in_app_or in I'. destruct I' as [I'|[<-|[]]]; auto.
     eapply convert_option_norepeat; eauto.
+Qed.
+
+(* no note of listOfDisjunctionOptions among the mappings: no extra loops *)
+Lemma lod_groups_none : forall (oms : list (boption * convmapping)) g,
+  (forall om, In om oms -> cm_repeat_as (snd om) = "") ->
+  fold_left (fun g om => if is_lod_marker (snd om) then lod_add g (cm_repeat_index (snd om)) (fst om) else g) oms g = g.
+Proof.
+  induction oms as [|om r IH]; simpl; intros g H; auto.
+  assert (X : is_lod_marker (snd om) = false).
+  { unfold is_lod_marker. rewrite (H om (or_introl eq_refl)). reflexivity. }
+  rewrite X. apply IH. intros; apply H; right; auto.
+Qed.
+
+Lemma lod_mappings_none e b gp opts ms :
+  (forall m, In m ms -> cm_repeat_as m = "") -> lod_mappings e b gp (lod_groups opts ms) = [].
+Proof.
+  intros H. unfold lod_groups. rewrite lod_groups_none; [reflexivity|].
+  intros [o m] I. apply H. apply in_combine_r in I. exact I.
 Qed.
 
 Theorem each_option_at_most_once_proof e p n v b bp bn ctor calls :
@@ -169,8 +189,11 @@ Proof.
   { unfold from_builder in H1.
     destruct (fold_left _ (b_options b) ([], [])) as [ms gp] eqn:E. simpl in H1.
     destruct (from_builder_fold e b _ _ _ _ _ E) as [ms' [EQ F]]. simpl in EQ. subst ms.
-    eapply mappings_calls; eauto.
-    eapply from_builder_fold_norepeat; eauto. intros m []. }
+    assert (NR : forall m, In m ms' -> cm_repeat_for m = None /\ cm_repeat_as m = "").
+    { eapply from_builder_fold_norepeat; eauto. intros m []. }
+    rewrite (lod_mappings_none e b gp (b_options b) ms') in H1 by (intros m I; apply NR; exact I).
+    rewrite app_nil_r in H1.
+    eapply mappings_calls; eauto. intros m I. apply NR. exact I. }
   split; auto. eapply subseq_nodup; eauto.
 Qed.
 
@@ -276,8 +299,11 @@ Proof.
   destruct (fold_left _ (b_options b) ([], [])) as [ms gp] eqn:E.
   assert (X : (ms, gp) = ([] ++ derived_mappings e b fs (b_options b), [] ++ map key_of_field fs)).
   { rewrite <- E. apply (from_builder_fold_derived e b fs (b_options b) [] [] F ND). intros k []. }
-  inversion X; subst. simpl. clear E X ND.
-  induction F as [|f o fs' opts D _ IH]; simpl; auto. f_equal. exact IH.
+  inversion X; subst. cbn [app cv_mappings].
+  rewrite lod_mappings_none, app_nil_r.
+  - clear E X ND. induction F as [|f o fs' opts D _ IH]; simpl; auto. f_equal. exact IH.
+  - clear. intros m I. revert I. generalize (b_options b). induction fs as [|f fr IH]; intros [|o r]; simpl; try contradiction.
+    intros [<-|I]; [reflexivity|eauto].
 Qed.
 
 (* the options FromAST derives are the image of a sub-sequence of the struct's fields *)
